@@ -317,6 +317,7 @@ class LexEvaluator(Evaluator):
         self.splitter = Splitter(pats) if pats is not None else None
         super().__init__(facts, {'word_splitter': self.splitter})
         self.lang = lang
+        self.group_result = None   # abstract result of exec_group (for evaluating the group path of apply)
 
     def apply_fn(self, callee, args, e, env, method=None):
         a0 = args[0] if args else None
@@ -327,6 +328,8 @@ class LexEvaluator(Evaluator):
                 return ('pieces', a0.split(args[1]))
         if method == 'exec_group' or (callee or '').endswith('LangInterpreter::exec_group'):
             pieces = args[1][1] if isinstance(args[1], tuple) and args[1] and args[1][0] == 'pieces' else None
+            if self.group_result is not None:
+                return self.group_result
             raise Compound(pieces)
         if method == 'split' and isinstance(a0, str):
             return ('pieces', a0.split(args[1]))
